@@ -721,6 +721,15 @@ pub fn run(ctx: &Ctx) {
             .filter(|s| RESERVED.contains(&s.as_str()) || hash_of(&(ctx.seed, k, *s)) % (pool.len() as u64) < n_lit as u64)
             .cloned()
             .collect();
+        // every dictionary token, and every two-token concatenation with a reserved word on either side, unthinned
+        for (i, a) in dict.iter().enumerate() {
+            chosen.push((*a).to_string());
+            for (j, b) in dict.iter().enumerate() {
+                if i < 6 || j < 6 {
+                    chosen.push(format!("{a}{b}"));
+                }
+            }
+        }
         chosen.sort();
         chosen.dedup();
         literals.extend(chosen.into_iter().map(|s| (k, s)));
